@@ -348,6 +348,8 @@ def main_wrapper(fn, pid, argv):
     ctx = Ctx(pid, tier, seed, a.replay)
     try:
         rc = fn(ctx)
+        if rc == 0 and tier == "thorough" and not a.replay:
+            rc = extra_seed_rounds(ctx)
     except MachineryError as e:
         print("MACHINERY-ERROR property=%s: %s" % (pid, e), flush=True)
         rc = 2
@@ -355,3 +357,68 @@ def main_wrapper(fn, pid, argv):
         print("MACHINERY-ERROR property=%s: uncaught exception\n%s" % (pid, traceback.format_exc()), flush=True)
         rc = 2
     sys.exit(rc)
+
+
+def extra_seed_rounds(ctx):
+    """Thorough tier only: the random parts of a check (scenario samples, concretisations, schedules) depend on the seed;
+    after the thorough body the quick body is run again under further seeds (separate processes, evidence in scratch
+    directories). A violation found there is a violation (its replay file is copied next to the others); a round that
+    cannot decide is a machinery error. The rounds are recorded in the evidence file."""
+    try:
+        n = int(os.environ.get("VERIF_ROUNDS", "4"))
+    except ValueError:
+        n = 4
+    if n <= 0:
+        return 0
+    from concurrent.futures import ThreadPoolExecutor
+    seeds = [ctx.seed * 1000 + 17 * (i + 1) for i in range(n)]
+
+    def one(sd):
+        evd = ctx.path("round-%d" % sd)
+        os.makedirs(evd, exist_ok=True)
+        env = dict(os.environ, VERIF_SEED=str(sd), VERIF_EVIDENCE_DIR=evd, VERIF_TIER="quick")
+        t = time.time()
+        r = subprocess.run([os.path.join(VERIF, "bin", "check"), ctx.pid, "--tier", "quick"], env=env,
+                           stdout=subprocess.PIPE, stderr=subprocess.STDOUT, text=True)
+        return sd, evd, r.returncode, r.stdout, time.time() - t
+
+    rounds, rc = [], 0
+    with ThreadPoolExecutor(max_workers=2) as ex:
+        for sd, evd, prc, out, wall in ex.map(one, seeds):
+            row = dict(seed=sd, tier="quick", rc=prc, wall_s=round(wall, 1))
+            try:
+                cov = json.load(open(os.path.join(evd, ctx.pid + ".json")))["coverage"]
+                for k in ("states", "transitions", "traces_validated_against_impl", "trials", "inputs"):
+                    if k in cov:
+                        row[k] = cov[k]
+            except Exception:
+                pass
+            rounds.append(row)
+            lines = out.splitlines()
+            if prc == 1:
+                for i, l in enumerate(lines):
+                    if l.startswith("KNOWN-FINDING"):
+                        continue
+                    if l.startswith("VIOLATION"):
+                        src = l.split("replay=", 1)[1].strip()
+                        dst = os.path.join(ctx.evdir, "replays", os.path.basename(src))
+                        try:
+                            shutil.copy(src, dst)
+                        except OSError:
+                            dst = src
+                        print("VIOLATION property=%s replay=%s" % (ctx.pid, dst), flush=True)
+                        if i + 1 < len(lines):
+                            print(lines[i + 1], flush=True)
+                rc = 1
+            elif prc != 0:
+                msg = next((l for l in lines if "MACHINERY-ERROR" in l), "exit %d" % prc)
+                raise MachineryError("seed round %d could not decide: %s" % (sd, msg[:400]))
+            ctx.log("seed round %d (quick body): rc=%d, %.1fs" % (sd, prc, wall))
+    evp = os.path.join(ctx.evdir, ctx.pid + ".json")
+    ev = json.load(open(evp))
+    ev["coverage"]["extra_seed_rounds"] = rounds
+    ev["violations"] = ev.get("violations", 0) + sum(1 for r in rounds if r["rc"] == 1)
+    ev["wall_s"] = round(time.time() - ctx.t0, 1)
+    with open(evp, "w") as fo:
+        json.dump(ev, fo, indent=1, ensure_ascii=False)
+    return rc
